@@ -46,5 +46,7 @@ def GS.addEdge (g : GS) (e : Nat × Nat × Nat) : GS := { g with edges := e :: g
 def GS.removeEdge (g : GS) (e : Nat × Nat × Nat) : GS := { g with edges := g.edges.erase e }
 def GS.addStart (g : GS) (v : Nat) : GS := { g with start := v :: g.start }
 def GS.addCons (g : GS) (c : Nat) : GS := { g with cons := g.cons ++ [c] }
+def GS.removeStart (g : GS) (v : Nat) : GS := { g with start := g.start.erase v }
+def GS.removeCons (g : GS) (c : Nat) : GS := { g with cons := g.cons.erase c }
 
 end Adsg
